@@ -919,8 +919,8 @@ Proof.
       pose proof (ensure_bucket_gov _ _ _ _ _ _ _ _ _ _ Ee HI Hg) as Hg1; [exact Hg1|].
     destruct (ensure_bucket_spec _ _ _ _ _ Ee HI) as (HI1 & _ & _).
     destruct (get_object s1 sb sk) as [e|v0 sv0]; [exact Hg1|].
-    pose proof (put_object_survives s1 b0 k0 (vd_body v0) (vd_meta v0) _ _ _ _ _ HI1 Hg1 Hn) as Hs.
-    destruct (put_object s1 b0 k0 (vd_body v0) (vd_meta v0)) as [s2 [[e|] vid]]; exact Hs.
+    pose proof (put_object_survives s1 b0 k0 (vd_body v0) (merge_meta m (vd_meta v0)) _ _ _ _ _ HI1 Hg1 Hn) as Hs.
+    destruct (put_object s1 b0 k0 (vd_body v0) (merge_meta m (vd_meta v0))) as [s2 [[e|] vid]]; exact Hs.
   - (* OSetVersioning *)
     destruct (ensure_bucket c s b0) as [s1 [e|]] eqn:Ee;
       pose proof (ensure_bucket_gov _ _ _ _ _ _ _ _ _ _ Ee HI Hg) as Hg1; [exact Hg1|].
